@@ -219,7 +219,9 @@ class Check(object):
             rej = v.pop('_rej', None)
             doc = {'property': self.prop, 'clause': v['clause'], 'module': v['module'], 'site': v['site'],
                    'witness': v['witness'], 'detail': v['detail'], 'count_same_key': len(vs),
-                   'tier': self.tier, 'seed': self.seed}
+                   'tier': self.tier, 'seed': self.seed,
+                   'others_same_key': [str(o.get('witness', ''))[:120] + ' | ' + str((o.get('detail') or {}).get('how', ''))
+                                       for o in vs[1:40]]}
             if rej is not None:
                 try:
                     doc['micro_trace'] = self.events_of(rej)
